@@ -875,7 +875,13 @@ func vhC18ErrorText(tree []diagnostics.EntityDiagnostic) {
 		scan(&tree[i], false)
 	}
 	symxKnownFor("C18-error-text-repeats-entities", "C18.front.error-text-mentions-no-diagnostic-twice", repeats)
-	for _, d := range vhFlattenDiags(tree) {
+	all := vhFlattenDiags(tree)
+	for i := 1; i < len(all); i++ {
+		for j := i; j > 0 && vhDiagLess(all[j], all[j-1]); j-- {
+			all[j], all[j-1] = all[j-1], all[j]
+		}
+	}
+	for _, d := range all {
 		if d.Severity != diagnostics.DiagnosticError {
 			continue
 		}
@@ -1290,5 +1296,77 @@ func (c *Ctl) Op(id int, q ` + qType + `, f1 ` + f1Type + `, f2 int) error {
 		symxAssert(vhSameStrings(vhSortStrings(d.formRequired), wantReq), "C06.front."+ver+".form-required-under-the-same-rule")
 		sr := vhRespFind(d.responses, "204")
 		symxAssert(sr != nil && !sr.hasContent && len(d.responses) == 1, "C06.front."+ver+".204-without-content-and-nothing-else")
+	}
+}
+
+// C18 through the front end, several files: a route conflict between two methods is reported at the @Route comment
+// of each method, in the file that holds that method (which need not be the controller's file)
+func vh_C18_front_conflict_Q() {
+	sameFile := symxBool("sameFile") // both conflicting methods in the controller's file, or in a sibling file
+	route2 := []string{"/same", "/{x}", "/other"}[symxChoice("route2", 3)]
+	ctrl := `package ctl
+
+import "github.com/gopher-fleece/runtime"
+
+// @Tag(T)
+// @Route(/c)
+type Ctl struct {
+	runtime.GleeceController
+}
+`
+	methods := `
+// @Method(GET)
+// @Route(/same)
+func (c *Ctl) One() error { return nil }
+
+	// @Method(GET)
+	// @Route(` + route2 + `)
+	// @Path(x)
+func (c *Ctl) Two(x string) error { return nil }
+`
+	if route2 != "/{x}" {
+		methods = strings.Replace(methods, "\t// @Path(x)\n", "", 1)
+		methods = strings.Replace(methods, "Two(x string)", "Two()", 1)
+	}
+	names, srcs := []string{"a.go", "b.go"}, []string{ctrl, "package ctl\n" + methods}
+	if sameFile {
+		names, srcs = []string{"a.go"}, []string{ctrl + methods}
+	}
+	fr, err := visitors.VhLoadSources(names, srcs, nil)
+	symxAssert(err == nil, "C18.front.fixture-loads")
+	if err != nil {
+		return
+	}
+	p := pipeline.VhNewPipeline(fr, vhFrontConfig())
+	if p.GenerateGraph() != nil {
+		return
+	}
+	tree, err := p.Validate()
+	symxAssert(err == nil, "C18.front.validation-runs")
+	if err != nil {
+		return
+	}
+	methodSrc := srcs[len(srcs)-1]
+	lines := strings.Split(methodSrc, "\n")
+	conflicts := 0
+	for _, d := range vhFlattenDiags(tree) {
+		if diagnostics.DiagnosticCode(d.Code) != diagnostics.DiagRouteConflict {
+			continue
+		}
+		conflicts++
+		symxCover("C18.front.conflict-diagnostic")
+		symxAssert(strings.HasSuffix(d.FilePath, "/"+names[len(names)-1]), "C18.front.conflict-names-the-file-of-the-method")
+		r := d.Range
+		inside := r.StartLine >= 0 && r.EndLine < len(lines) && r.StartLine == r.EndLine && r.StartCol >= 0 && r.StartCol <= r.EndCol && r.EndCol <= len([]rune(lines[r.EndLine]))
+		symxAssert(inside, "C18.front.conflict-range-lies-inside-that-file")
+		if inside {
+			covered := string([]rune(lines[r.StartLine])[r.StartCol:r.EndCol])
+			symxAssert(covered == "/same" || covered == route2, "C18.front.conflict-covers-the-route-value")
+		}
+	}
+	if route2 == "/other" {
+		symxAssert(conflicts == 0, "C18.front.no-conflict-reported-for-distinct-routes")
+	} else {
+		symxAssert(conflicts == 2, "C18.front.both-conflicting-methods-are-reported")
 	}
 }
